@@ -31,6 +31,7 @@ import GraphiqModel.Proofs.MetricsHist
 import GraphiqModel.Proofs.MetricsHistFuse
 import GraphiqModel.Proofs.MetricsHistCheck
 import GraphiqModel.Proofs.MetricsHistWires
+import GraphiqModel.Proofs.MetricsHistValidate
 namespace Graphiq.C12
 open Graphiq Graphiq.Dag Graphiq.Metrics Relation
 
@@ -168,6 +169,17 @@ theorem dagInv_indexes {c : Dag} (h : DagInv c) :
 theorem dagInv_register_counts {c : Dag} (h : DagInv c) (t : RegType) :
     (c.nodeIds.filter (fun n => match n with | .inp r => r.ty = t | _ => false)).length = c.regs t := by
   obtain ⟨P, g⟩ := h; exact g.inv.input_count t
+
+/-- **the code's own structural check passes**: `CircuitDAG.validate()` — acyclic (the model's Kahn-style `isAcyclicB`), every node
+    without in-edges holds an `Input`, every node without out-edges an `Output` — returns without raising on every circuit
+    satisfying DagInv -/
+theorem validate_passes {c : Dag} (h : DagInv c) : c.validate = none := by
+  obtain ⟨P, g⟩ := h; exact validate_of_good g
+
+/-- … hence after every history of well-formed edits from a fresh circuit -/
+theorem validate_passes_after_every_history (ne np nc : Nat) (es : List Edit) (hok : HistOK (Dag.init ne np nc) es) :
+    (run (Dag.init ne np nc) es).validate = none :=
+  validate_passes (history_from_init ne np nc es hok)
 
 /-! ## 4. inserting on a pair the circuit reports compatible never creates a cycle -/
 
